@@ -96,10 +96,33 @@ Definition api_in_range (x : api_attr) : Prop :=
 Definition wf_labels (ls : list N) (m : N) : Prop :=
   ls <> [] /\ Forall (fun l => l < 1048576) ls /\ 24 * N.of_nat (length ls) + m <= 255.
 
+(* RFC 4364 s4.2: the three route distinguisher layouts *)
+Definition wf_rd (d : rd) : Prop :=
+  match d with
+  | RD2 a b => a < 65536 /\ b < 4294967296
+  | RDIp a b => a < 4294967296 /\ b < 65536
+  | RD4 a b => a < 4294967296 /\ b < 65536
+  end.
+
 Definition wf_nlri (n : nlri) : Prop :=
   match n with
   | NV4 a m => a < 2 ^ 32 /\ m <= 32
   | NV6 a m => a < 2 ^ 128 /\ m <= 128
   | NLab4 ls a m => a < 2 ^ 32 /\ m <= 32 /\ wf_labels ls m
   | NLab6 ls a m => a < 2 ^ 128 /\ m <= 128 /\ wf_labels ls m
+  | NVpn4 ls d a m => a < 2 ^ 32 /\ m <= 32 /\ wf_rd d /\ wf_labels ls (64 + m)
+  | NVpn6 ls d a m => a < 2 ^ 128 /\ m <= 128 /\ wf_rd d /\ wf_labels ls (64 + m)
+  end.
+
+(* protobuf ranges of the API NLRI messages *)
+Definition api_rd_in_range (d : api_rd) : Prop :=
+  match d with
+  | ARd2 a b | ARd4 a b => u32_ok a /\ u32_ok b
+  | ARdIp _ b => u32_ok b
+  | ARdMissing => True
+  end.
+Definition api_nlri_in_range (x : api_nlri) : Prop :=
+  match x with
+  | PVpn _ d _ _ => api_rd_in_range d
+  | _ => True
   end.
